@@ -200,7 +200,8 @@ def transform_expression(
     :param symbols_to_use: an optional list of symbols to use so that already defined symbols will be reused.
     :return: the transformed expression and the symbols to use.
     """
-    pddl_variables = set(re.findall(r"(\([\w-]+\s[?\w\-\s]*\))", expression))
+    # a function name starts with a letter (or an underscore), so that a constant expression such as (3 - 4) is not a variable.
+    pddl_variables = set(re.findall(r"(\([^\W\d][\w-]*\s[?\w\-\s]*\))", expression))
     if len(pddl_variables) == 0:
         return expression, symbols_to_use
 
